@@ -159,6 +159,71 @@ func c01Direct(c *Ctx) {
 			}
 		}
 	}
+	// table-name families: every subset of tables cached, every table looked up
+	fam := []string{"t", "t1", "tt", "xt", "ns:t", "ns:xt", "ns:tt", "ns:t_t", "n:t", "nst:t", "ns:s"}
+	if !c.Thorough {
+		fam = fam[:9]
+	}
+	var famRegs [][]*lRegion
+	for i, tn := range fam {
+		if i%2 == 0 {
+			famRegs = append(famRegs, layout(tn, nil, 9))
+		} else {
+			famRegs = append(famRegs, layout(tn, [][]byte{[]byte("-")}, 9))
+		}
+	}
+	fkeys := stringsUpTo(alpha, 2)
+	for mask := 0; mask < 1<<len(fam); mask++ {
+		if !r.Owns(mask) {
+			continue
+		}
+		vc := gohbase.VNewCache()
+		var cached []*lRegion
+		for i := range fam {
+			if mask&(1<<i) != 0 {
+				for _, g := range famRegs[i] {
+					vc.Put(g.obj)
+					cached = append(cached, g)
+				}
+			}
+		}
+		for _, table := range fam {
+			for _, k := range fkeys {
+				var want *lRegion
+				for _, g := range cached {
+					if g.contains(table, k) {
+						want = g
+					}
+				}
+				var got hrpc.RegionInfo
+				m := catch(func() { got = vc.Lookup([]byte(table), k) })
+				cases++
+				nontriv++
+				var f *explore.Finding
+				switch {
+				case m != "":
+					f = &explore.Finding{Class: "lookup-panic", Msg: m}
+				case want == nil && got != nil:
+					f = &explore.Finding{Class: "routed-to-region-not-containing-key",
+						Msg: fmt.Sprintf("table %q key %q: cache returned %s (a region of another table or range); must go to meta", table, k, got)}
+				case want != nil && got == nil:
+					f = &explore.Finding{Class: "known-region-not-found-in-cache", Msg: fmt.Sprintf("table %q key %q lies in cached %s", table, k, want.obj)}
+				case want != nil && got != want.obj:
+					f = &explore.Finding{Class: "routed-to-wrong-region", Msg: fmt.Sprintf("table %q key %q: got %s want %s", table, k, got, want.obj)}
+				}
+				if want == nil {
+					outcomes["family-miss"]++
+				} else {
+					outcomes["family-hit"]++
+				}
+				if f != nil {
+					r.Direct("table-families", true, "", f, func() any {
+						return map[string]any{"tables": fam, "cached_mask": mask, "table": table, "key": q(k)}
+					})
+				}
+			}
+		}
+	}
 	st := &r.Stats
 	st.Executions += cases
 	st.NonTrivial += nontriv
